@@ -102,7 +102,11 @@ def position_carried(ctx):
                 continue
             if positional:
                 a = [src(x) for x in c.args[1:]]
-                ok = ("text" in a[0] or "source" in a[0]) and a[3] in ("filename", "self.filename")
+                # the source text handed on derives from the function's own input (a parameter or the lexer's text)
+                fparams = {p_.arg for p_ in f.args.args} if f is not None else set()
+                r0 = resolve_deep(f, c.args[1], 3) if f is not None else c.args[1]
+                from_input = any((isinstance(x_, ast.Name) and x_.id in fparams - {"self", "filename"}) or (isinstance(x_, ast.Attribute) and src(x_) in ("self.text", "self.source")) for x_ in ast.walk(r0))
+                ok = from_input and a[3] in ("filename", "self.filename")
                 ctx.check(ok, key, db.where(r), "explicit position fields look wrong: %s" % a, "explicit fields %s" % a)
                 continue
             ctx.ok(key, db.where(r), "carries %s" % kw)
